@@ -12,8 +12,8 @@ theorem elem_operators (ps : List Param) (a b : Elem) :
   ⟨rfl, rfl, rfl⟩
 
 /-- the same for vectors -/
-theorem vec_operators (ps : List Param) (a b : List Elem) :
-    vecGt ps a b = vecLt ps b a ∧ vecLe ps a b = !vecLt ps b a ∧ vecGe ps a b = !vecLt ps a b :=
+theorem vec_operators (ps : List Param) (fa fb : List Nat) (a b : List Elem) :
+    vecGt ps fa fb a b = vecLt ps fb fa b a ∧ vecLe ps fa fb a b = !vecLt ps fb fa b a ∧ vecGe ps fa fb a b = !vecLt ps fa fb a b :=
   ⟨rfl, rfl, rfl⟩
 
 /-- element `<` is irreflexive, asymmetric and transitive for every parameter list (memcmp runs and
@@ -26,14 +26,15 @@ theorem elem_lt_strict (ps : List Param) :
 
 /-- vector `<` is irreflexive and asymmetric on both code paths -/
 theorem vec_lt_irrefl_asymm (ps : List Param) :
-    (∀ a, vecLt ps a a = false) ∧ (∀ a b, vecLt ps a b = true → vecLt ps b a = false) :=
+    (∀ f a, vecLt ps f f a a = false) ∧ (∀ fa fb a b, vecLt ps fa fb a b = true → vecLt ps fb fa b a = false) :=
   ⟨vecLt_irrefl ps, vecLt_asymm ps⟩
 
-/-- on the whole-buffer (memcmp) path vector `<` is moreover transitive: a strict weak order -/
-theorem vec_lt_trans_fastpath (ps : List Param)
+/-- on the whole-buffer (memcmp) path — vectors with the same fixed sizes — vector `<` is moreover transitive: a strict
+    weak order -/
+theorem vec_lt_trans_fastpath (ps : List Param) (f : List Nat)
     (hc : (ps.all (·.ty.lexMemcmp) && isFixedOrPlain ps && storageAl ps == 1) = true) (a b c : List Elem)
-    (h1 : vecLt ps a b = true) (h2 : vecLt ps b c = true) : vecLt ps a c = true :=
-  (vecLt_swo_fastpath ps hc).trans h1 h2
+    (h1 : vecLt ps f f a b = true) (h2 : vecLt ps f f b c = true) : vecLt ps f f a c = true :=
+  (vecLt_swo_fastpath ps f hc).trans h1 h2
 
 /-- **full statement, FALSE for the code as it is**: transitivity of vector `<` on the element-wise path.
     `std::lexicographical_compare` over the strict *partial* element order (all fields must be less) is not
@@ -42,26 +43,28 @@ theorem vec_lt_trans_fastpath (ps : List Param)
     the existing test "ContiguousVector of std::string comparison operators / greater with greater size",
     which requires `[(a,a),(a,a)] > [(b,a)]`. -/
 def VecLtTransitive (ps : List Param) : Prop :=
-  ∀ a b c, vecLt ps a b = true → vecLt ps b c = true → vecLt ps a c = true
+  ∀ fa fb fc a b c, vecLt ps fa fb a b = true → vecLt ps fb fc b c = true → vecLt ps fa fc a c = true
 
 def intInt : List Param := [⟨.plain, 4, 1, { lexMemcmp := false }⟩, ⟨.plain, 4, 1, { lexMemcmp := false }⟩]
 
 theorem vec_lt_trans_counter_witness :
-    vecLt intInt [[[1],[5]],[[1],[1]]] [[[2],[3]],[[2],[2]]] = true ∧
-    vecLt intInt [[[2],[3]],[[2],[2]]] [[[3],[4]],[[0],[0]]] = true ∧
-    vecLt intInt [[[1],[5]],[[1],[1]]] [[[3],[4]],[[0],[0]]] = false := by decide +kernel
+    vecLt intInt [] [] [[[1],[5]],[[1],[1]]] [[[2],[3]],[[2],[2]]] = true ∧
+    vecLt intInt [] [] [[[2],[3]],[[2],[2]]] [[[3],[4]],[[0],[0]]] = true ∧
+    vecLt intInt [] [] [[[1],[5]],[[1],[1]]] [[[3],[4]],[[0],[0]]] = false := by decide +kernel
 
 theorem vec_lt_not_transitive : ¬ VecLtTransitive intInt := by
   intro h
   obtain ⟨h1, h2, h3⟩ := vec_lt_trans_counter_witness
-  have := h _ _ _ h1 h2
+  have := h _ _ _ _ _ _ h1 h2
   rw [h3] at this; exact absurd this (by simp)
 
 /-- on the element-wise path vector `<` is by definition the lexicographical comparison of the element
     sequences under the element `<` -/
-theorem vec_lt_is_lexicographical (ps : List Param) (a b : List Elem)
-    (h : (ps.all (·.ty.lexMemcmp) && isFixedOrPlain ps && storageAl ps == 1) = false) :
-    vecLt ps a b = lexBy (elemLt ps) a b := by
-  unfold vecLt seqLt; simp [h]
+theorem vec_lt_is_lexicographical (ps : List Param) (fa fb : List Nat) (a b : List Elem)
+    (h : (ps.all (·.ty.lexMemcmp) && isFixedOrPlain ps && storageAl ps == 1) = false ∨
+         (fixedSizesOf ps fa == fixedSizesOf ps fb) = false) :
+    vecLt ps fa fb a b = lexBy (elemLt ps) a b := by
+  unfold vecLt seqLt
+  rcases h with h | h <;> simp [h]
 
 end Cntgs.C14
